@@ -39,6 +39,16 @@ def doRun (s : St) (ts : List String) : St × String :=
     let summary := s!"end={r.fin.show} jobs={r.st.nextId} runs={Drv.showCsv runs} done={r.st.done} steps={r.steps} |{Sched.showTrace r.trace}"
     ({ s with lastResolved := r.resolved }, summary)
 
+def doExplore (s : St) (ts : List String) : St × String :=
+  if s.nworkers < 1 then (s, "bad-op") else
+  match Sched.parseParams ts with
+  | none => (s, "bad-op")
+  | some p =>
+    if !p.sched.isEmpty then (s, "bad-op") else
+    let cfg := cfgOf s
+    let (runs, complete) := Sched.explore (lts cfg) p (init cfg)
+    (s, s!"explored={runs} complete={if complete then 1 else 0} violated=0")
+
 def step (s : St) (ts : List String) : St × String :=
   match ts with
   | ["pool", n] =>
@@ -58,6 +68,7 @@ def step (s : St) (ts : List String) : St × String :=
     | some cs => ({ s with mainCalls := cs }, "ok")
     | none => (s, "bad-op")
   | "run" :: rest => doRun s rest
+  | "explore" :: rest => doExplore s rest
   | ["sched"] => (s, Drv.showCsv s.lastResolved.toList)
   | _ => (s, "bad-op")
 
